@@ -89,12 +89,25 @@ func passes(quick bool) []passDef {
 		alpha:    []string{"a", "b", "\xc3", "\xe3", "\x81", "\x82"},
 		maxLen:   5,
 	}
+	// self-overlapping literals (a proper prefix of the literal is also a
+	// suffix of it: aa, aab, abab, bb, bab) against long lines over a small
+	// alphabet with both letter cases: a search that does not restart right
+	// after the first byte of a failed partial match loses occurrences such as
+	// "aab" in "aaab"
+	overlap := passDef{
+		tag:      "overlap",
+		prefixes: []string{"", "aa", "aab", "abab", "aA", "bAb"},
+		untils:   []string{"aab", "bb", "abab", "aa", "bab", "Aab"},
+		alpha:    []string{"a", "b", "A", "B"},
+		maxLen:   8,
+	}
 	if quick {
 		main.maxLen = 5
 		percent.maxLen = 5
 		bytesPass.maxLen = 4
+		overlap.maxLen = 6
 	}
-	return []passDef{main, percent, bytesPass}
+	return []passDef{main, percent, bytesPass, overlap}
 }
 
 func forEachPattern(p *passDef, f func(ps patSpec) bool) {
@@ -705,7 +718,7 @@ func main() {
 		Rule: func(prop, tier string) string {
 			ps := passes(tier != "thorough")
 			var sb strings.Builder
-			sb.WriteString("every dissect pattern = leading literal + 0..2 tokens (named %{x}/%{y}, %{}, %{?n}) each followed by a trailing literal (the last one optionally none), compiled case-sensitive and ignore-case with the real CompileEx, x every line (all strings of up to L symbols over the pass alphabet), in three passes: ")
+			sb.WriteString("every dissect pattern = leading literal + 0..2 tokens (named %{x}/%{y}, %{}, %{?n}) each followed by a trailing literal (the last one optionally none), compiled case-sensitive and ignore-case with the real CompileEx, x every line (all strings of up to L symbols over the pass alphabet), in four passes: ")
 			for i, p := range ps {
 				if i > 0 {
 					sb.WriteString("; ")
